@@ -138,7 +138,8 @@ c.ensures("isinstance(result, bool)")
 c.raises("LocationParseError")
 
 c = contract("urllib3.util.request.set_file_position")
-c.assumed("records/rewinds the body position (verified under C11): returns pos if given, else tell() or the failed-tell marker or None; may raise UnrewindableBodyError")
+c.assumed("records/rewinds the body position (its body is verified under C11, contracts/util_request.py): returns pos if given, else tell() or the failed-tell marker or None; may raise UnrewindableBodyError. "
+          "ASSUMED here beyond what C11 proves: the body's tell()/seek() raise nothing but OSError, and a caller-supplied body_pos is None, an int or the failed-tell marker (otherwise ValueError / the callback's exception escapes urlopen before a connection is taken)")
 c.types(body="any", pos="any")
 c.modifies()
 c.ensures("implies(pos is not None, result is pos)")
